@@ -501,21 +501,24 @@ def _bad_exit(st, err):
     """classification of an abnormal end of a tool: (kind, detail) or None"""
     text = err.decode('latin-1')
     if st == 'sig14':
-        return 'timeout', 'watchdog (10 s) expired'
+        return 'timeout', 'watchdog (10 s) expired', None
     if st.startswith('sig') or SAN_RE.search(text):
         ck, cf = common.crash_sig(text)
-        return 'crash', '%s in %s (status %s)' % (ck, cf, st)
+        if ck == 'crash':
+            ck = st
+        return 'crash', '%s in %s (status %s)' % (ck, cf, st), '%s@%s' % (ck, cf)
     return None
 
 
 def judge(x, origin, nodes, kv):
-    """all violations of one evaluated input: list of (kind, detail)"""
+    """all violations of one evaluated input: list of (kind, detail[, case]); crashes are classed by their
+    sanitizer kind and first /repo frame instead of the structure of the input"""
     out = []
     # default (pretty-printing) mode: safety, and success on well-formed input
     ds, de = kv.get('ds'), _unhex(kv.get('de'))
     bad = _bad_exit(ds, de)
     if bad:
-        out.append(('unber_default_mode_' + bad[0], bad[1] + ': ' + de.decode('latin-1')[-1200:]))
+        out.append(('unber_default_mode_' + bad[0], bad[1] + ': ' + de.decode('latin-1')[-1200:], bad[2]))
     elif ds != '0' and not de.strip():
         out.append(('unber_default_mode_silent_failure', 'exit status %s without any diagnostic on stderr' % ds))
     elif ds != '0' and nodes is not None:
@@ -524,7 +527,7 @@ def judge(x, origin, nodes, kv):
     us, uo, ue = kv.get('us'), _unhex(kv.get('uo')), _unhex(kv.get('ue'))
     bad = _bad_exit(us, ue)
     if bad:
-        return out + [('unber_' + bad[0], bad[1] + ': ' + ue.decode('latin-1')[-1200:])]
+        return out + [('unber_' + bad[0], bad[1] + ': ' + ue.decode('latin-1')[-1200:], bad[2])]
     if us != '0' and not ue.strip():
         return out + [('unber_silent_failure', 'exit status %s without any diagnostic on stderr' % us)]
     if nodes is None:
@@ -541,7 +544,7 @@ def judge(x, origin, nodes, kv):
     es, eo, ee = kv['es'], _unhex(kv.get('eo')), _unhex(kv.get('ee'))
     bad = _bad_exit(es, ee)
     if bad:
-        out.append(('enber_' + bad[0], bad[1] + ': ' + ee.decode('latin-1')[-1200:]))
+        out.append(('enber_' + bad[0], bad[1] + ': ' + ee.decode('latin-1')[-1200:], bad[2]))
     elif es != '0':
         out.append(('enber_fails', 'exit status %s: %s' % (es, ee.decode('latin-1')[:300])))
     elif eo != x:
@@ -589,12 +592,15 @@ def _eval(rng):
         else:
             case = mutation_case(x)
             st['not_wellformed_exit_' + ('0' if kv.get('us') == '0' else 'diagnostic' if not kv.get('us', '').startswith('sig') else 'signal')] += 1
-        for kind, detail in judge(x, origin, nodes, kv):
+        struct_case = case
+        for v in judge(x, origin, nodes, kv):
+            kind, detail = v[0], v[1]
+            case = (v[2] if len(v) > 2 and v[2] else struct_case)
             st['viol:%s:%s' % (kind, case)] += 1
             per_sig[(kind, case)] += 1
             if per_sig[(kind, case)] <= 3:
                 viol.append((dict(kind=kind, case=case, syntax='ber'),
-                             dict(input=x.hex() if len(x) <= 6000 else x[:6000].hex() + '...(%d octets)' % len(x), origin=origin,
+                             dict(input=x.hex() if len(x) <= 6000 else x[:6000].hex() + '...(%d octets)' % len(x), origin=origin, structure=struct_case,
                                   unber_status=kv.get('us'), unber_output=_unhex(kv.get('uo')).decode('latin-1')[:6000],
                                   unber_stderr=_unhex(kv.get('ue')).decode('latin-1')[-3000:],
                                   enber_status=kv.get('es'), enber_output=_unhex(kv.get('eo')).hex()[:12000],
@@ -660,11 +666,24 @@ def replay(args):
             x = bytes.fromhex(r['input_repeat']['unit']) * r['input_repeat']['count']
         else:
             x = bytes.fromhex(r['input'].split('...')[0])
-        u, e = run_pipeline(exes, x, wdir, 'replay')
         print('signature:', json.dumps(r.get('signature')))
-        print('unber -p: status %s\n%s%s' % (_st(u), u.stdout.decode('latin-1')[:4000], u.stderr.decode('latin-1')[-3000:]))
-        if e is not None:
-            print('enber -: status %s output %s (%s)\n%s' % (_st(e), e.stdout.hex()[:4000], 'identical to the input' if e.stdout == x else 'DIFFERS from the input', e.stderr.decode('latin-1')[-3000:]))
+        if r.get('input_repeat'):
+            fp = os.path.join(wdir, 'deep.ber')
+            with open(fp, 'wb') as f:
+                f.write(x)
+            exe = exes['unber_plain' if r.get('build') == 'plain' else 'unber']
+            u = subprocess.run([exe, '-p', '-i', '0', fp], stdout=subprocess.DEVNULL, stderr=subprocess.PIPE, env=common.ASAN_ENV, timeout=600)
+            print('unber -p -i 0 (%s build, %d octets): status %s\n%s' % (r.get('build'), len(x), _st(u), u.stderr.decode('latin-1')[:1500]))
+        else:
+            u, e = run_pipeline(exes, x, wdir, 'replay')
+            print('unber -p: status %s\n%s%s' % (_st(u), u.stdout.decode('latin-1')[:4000], u.stderr.decode('latin-1')[-3000:]))
+            if e is not None:
+                print('enber -: status %s output %s (%s)\n%s' % (_st(e), e.stdout.hex()[:4000], 'identical to the input' if e.stdout == x else 'DIFFERS from the input', e.stderr.decode('latin-1')[-3000:]))
+            fp = os.path.join(wdir, 'x.ber')
+            with open(fp, 'wb') as f:
+                f.write(x)
+            u = subprocess.run([exes['unber'], fp], stdout=subprocess.PIPE, stderr=subprocess.PIPE, env=common.ASAN_ENV, timeout=60)
+            print('unber (default mode): status %s\n%s%s' % (_st(u), u.stdout.decode('latin-1')[:2000], u.stderr.decode('latin-1')[:3000]))
         print('recorded detail:', str(r.get('detail'))[:2000])
     finally:
         shutil.rmtree(wdir, ignore_errors=True)
@@ -743,9 +762,17 @@ def run(args):
             if key not in confirmed and '...' not in rep['input']:
                 x = bytes.fromhex(rep['input'])
                 try:
-                    u, e = run_pipeline(exes, x, wdir, 'c%d' % len(confirmed))
-                    same = (_st(u) == rep['unber_status'] and u.stdout.decode('latin-1')[:6000] == rep['unber_output']
-                            and (_st(e) if e is not None else None) == rep['enber_status'] and ((e.stdout.hex()[:12000] if e is not None else '') == rep['enber_output']))
+                    if sig['kind'].startswith('unber_default_mode'):
+                        fp = os.path.join(wdir, 'cd%d.ber' % len(confirmed))
+                        with open(fp, 'wb') as f:
+                            f.write(x)
+                        u = subprocess.run([exes['unber'], fp], stdout=subprocess.PIPE, stderr=subprocess.PIPE, env=common.ASAN_ENV, timeout=60)
+                        os.unlink(fp)
+                        same = _st(u) == rep['unber_default_mode_status'] and bool(SAN_RE.search(u.stderr.decode('latin-1'))) == bool(SAN_RE.search(rep['unber_default_mode_stderr']))
+                    else:
+                        u, e = run_pipeline(exes, x, wdir, 'c%d' % len(confirmed))
+                        same = (_st(u) == rep['unber_status'] and u.stdout.decode('latin-1')[:6000] == rep['unber_output']
+                                and (_st(e) if e is not None else None) == rep['enber_status'] and ((e.stdout.hex()[:12000] if e is not None else '') == rep['enber_output']))
                 except subprocess.TimeoutExpired:
                     same = sig['kind'].endswith('timeout')
                 confirmed[key] = same
@@ -795,8 +822,9 @@ def run(args):
                  'constructed x length form {minimal, long with one/two leading zero octets, 0x81 for <128, indefinite} x content length '
                  '{0,1,127,128,255,256}; every chain of <=%d constructed levels over {definite, indefinite, redundant long} per level x 4 sibling '
                  'layouts x 6 leaf lengths; sibling groups with independent forms; pairs/triples of top-level elements; elements of 1000..70000 '
-                 'octets. Arbitrary bytes (unber only must end within 10 s with exit 0 or a diagnostic, no signal, no sanitizer report; those that '
-                 'happen to be well-formed get the full oracle): every truncation and every single-octet substitution (%s) of %d seeds, all strings '
+                 'octets; UNIVERSAL 1,2,6,9,10,13 with 0..19 content octets x 8 patterns and 16 string/time tags (pretty-printer inputs). '
+                 'Arbitrary bytes (`unber -p` and `unber` in default pretty-printing mode, run on every input of every class, must end within 10 s '
+                 'with exit 0 or a diagnostic, no signal, no sanitizer report; those that happen to be well-formed get the full oracle): every truncation and every single-octet substitution (%s) of %d seeds, all strings '
                  'of length <=2; nesting probe of 1000..60000 indefinite levels. distinct_nontrivial = distinct well-formed inputs with nesting >= 2 '
                  'or a non-canonical length form. Out of the well-formed domain by tool design and answered with a diagnostic: tag numbers >= 2^30, '
                  'more than 8 length octets.' % (
